@@ -48,6 +48,13 @@ def gen_stallwatch(r, tier):
         ops.append("w.new " + " ".join(toks))
         now = 1000
         curve = r.pick([0, 0, r.range(0, 255)])
+        if kind == "hwmon" and r.chance(0.25):
+            # the RPM input is missing for a moment when fan2go first looks (the hwmon device is being re-enumerated) and is
+            # back afterwards: the fan HAS an RPM sensor, a later stall must be noticed (seed C10h: feature probes cached)
+            ops.append("w.dev hasrpm=0")
+            now += 200_000_000
+            ops.append(f"w.cycle curve={curve} now={now}")
+            ops.append("w.dev hasrpm=1")
         # spinning phase
         for _ in range(r.range(1, 4)):
             now += 200_000_000
@@ -64,12 +71,16 @@ def gen_stallwatch(r, tier):
         if not capped:
             ops[case_idx] = "#case stallwatch full=1"
         foreign = r.range(0, 255)
+        # control cycles per RPM poll: the daemon's default rates give 5 (200 ms / 1 s); the cycles between two polls see
+        # the average the controller itself wrote after a raise (seed C10g: that made-up value was taken for rotation)
+        cpp = r.pick([1, 1, 1, 2, 3, 5]) if kind != "cmd" else r.pick([1, 1, 2])
         for _ in range(budget):
             ops.append("w.poll")
-            if mismatch == "interloper":
-                ops.append(f"w.dev pwm={foreign}")
-            now += 200_000_000
-            ops.append(f"w.cycle curve={curve} now={now}")
+            for _ in range(cpp):
+                if mismatch == "interloper":
+                    ops.append(f"w.dev pwm={foreign}")
+                now += 200_000_000
+                ops.append(f"w.cycle curve={curve} now={now}")
     return ops
 
 
@@ -78,10 +89,10 @@ class C10(Prop):
     lean_modules = ["Fan2go.Props.C10"]
     fact_modules = ["Fan2go.Props.Facts", "Fan2go.Props.Trans", "Fan2go.Props.Trans3A", "Fan2go.Props.Trans3B", "Fan2go.Props.Trans3Fan", "Fan2go.Props.Trans3FileFan"]
     rule = ("stallwatch: neverStop hwmon/file/cmd fans (cmd = real scripts and processes), window sizes 1..50, prior RPM averages {0,1,300,1000,5000,random<=32768}, "
-            "limits random, constant curve, direct loop; the fan reports 0 RPM from some point on and never recovers; one RPM "
-            "poll per control cycle. non-trivial = distinct (kind, window, prior-average class, limits class)")
+            "limits random, constant curve, direct loop; the fan reports 0 RPM from some point on and never recovers; 1..5 control "
+            "cycles per RPM poll. non-trivial = distinct (kind, window, prior-average class, limits class)")
     assumptions = ["prior RPM average <= 2^15 (32768 RPM) for the hwmon bound B(n) = 16n polls",
-                   "one RPM poll between consecutive control cycles (the daemon's default rates give 5)"]
+                   "1, 2, 3 or 5 control cycles between consecutive RPM polls (the daemon's default rates give 5)"]
     streams = [Stream("stallwatch", gen_stallwatch, parallel=8)]
 
     def oracle(self, name, ops, go):
